@@ -1060,11 +1060,13 @@ def _format_value(value):
     A string representation of `value` when `value` is literally representable,
     or `None`.
   """
-  literal = repr(value)
   try:
+    literal = repr(value)
     if parse_value(literal) == value:
       return literal
-  except SyntaxError:
+  except Exception:  # pylint: disable=broad-except
+    # The repr doesn't parse or tokenize, looks like a reference to an unknown
+    # configurable, can't be computed or compared, ...: not a literal.
     pass
   return None
 
